@@ -82,6 +82,8 @@ def gen_harnesses(tier, seed):
         src = gen.one_position_module(methods, ["", "a", "ab", "abc", [], [1], [1, 2], [1, 2, 3], 0, (1,), ()], checks,
                                       prelude="from ovld import dependent_check\n\n@dependent_check\ndef Shorter(value: object, n):\n    return len(value) < n\n")
         out.append((f"c10_samecond_{i}", src, dict(family="one parametrised condition under two bounds", methods=methods)))
+    from props.c11 import tuple_element_modules
+    out.extend((f"c10_{n_}", src_, dict(meta_, family="value-dependent element types of tuple[...]")) for n_, src_, meta_ in tuple_element_modules())
     G = 8 if tier == "quick" else 40
     for i in range(G):
         a = rng.randint(-3, 10)
